@@ -167,7 +167,14 @@ impl FeelNumber {
   }
   ///
   pub fn round(&self, rhs: &FeelNumber) -> Self {
-    Self(dec_rescale(&self.0, &dec_minus(&rhs.0)))
+    let n = dec_rescale(&self.0, &dec_minus(&rhs.0));
+    if dec_is_finite(&n) {
+      Self(n)
+    } else {
+      // The number can not be written with the requested scale in 34 digits,
+      // so it has no digits beyond this scale and rounding leaves it unchanged.
+      *self
+    }
   }
   ///
   pub fn sqrt(&self) -> Option<Self> {
